@@ -123,6 +123,27 @@ func c07Enumerate(tier string, yield func(any)) {
 		yield(&c07Case{Kind: "ski", B: cr, C: 1})
 		yield(&c07Case{Kind: "ocsp", B: cr})
 	}
+	c07EnumKeyIDs(yield)
+}
+
+// c07KeyIDBytes: every one-octet key id and, for every pair of leading base64
+// characters of the "!binary:" spelling, a three-octet key id starting with it.
+func c07KeyIDBytes(a, b int) []byte {
+	if b < 0 {
+		return []byte{byte(a)}
+	}
+	return []byte{byte(a<<2 | b>>4), byte((b&15)<<4 | 5), 0xa7}
+}
+
+func c07EnumKeyIDs(yield func(any)) {
+	for a := 0; a < 256; a++ {
+		yield(&c07Case{Kind: "akibytes", A: a, B: -1})
+	}
+	for a := 0; a < 64; a++ {
+		for b := 0; b < 64; b++ {
+			yield(&c07Case{Kind: "akibytes", A: a, B: b})
+		}
+	}
 }
 
 func c07Exec(x *engine.Ctx, cc any) {
@@ -250,6 +271,8 @@ func c07Exec(x *engine.Ctx, cc any) {
 		} else {
 			e.AKIBin = refcfg.Bin(bytes.Repeat([]byte{byte(0x30 + c.A)}, c07AKILens[c.A]))
 		}
+	case "akibytes":
+		e = refcfg.Ext{Kind: refcfg.KAKI, AKIBin: refcfg.Bin(c07KeyIDBytes(c.A, c.B))}
 	case "ski":
 		e = refcfg.Ext{Kind: refcfg.KSKI, SKI: refcfg.S("hash"), Critical: c06Crit(c.B)}
 		subordinate = c.C == 1
@@ -295,7 +318,7 @@ func init() {
 	register(&engine.Check{
 		ID:          "C07",
 		Level:       "exploration",
-		Rule:        "keyUsage: all 128 flag subsets x critical 3 (written order varied); subjectAlternativeName: all lists of length 0..4 over {mail,dns,ip} x 2 values (1555; thorough 0..5); basicConstraints: ca {omitted,false,true} x pathLen {omitted, 0..255, 256, 65535, 2^31} (780); certificatePolicies: 27 policy shapes (plain, cps, every userNotice combination of organization x numbers x text, two qualifiers), singles and all pairs; authorityInformationAccess: lists 0..3 (thorough 0..5) over 2 URIs; extendedKeyUsage: lists 0..3 (thorough 0..4) over 6 names + 2 OIDs; subjectAlternativeName lists up to 4 (thorough 5); authorityKeyIdentifier: hash (self-signed and under an issuer) and explicit ids of 1,20,32,127,128,768,769,1024 bytes x critical 3; subjectKeyIdentifier hash; ocspNoCheck; every string-, OID- and list-valued member at 25 lengths around the 127/128, 255/256 and 65535/65536 DER length-form boundaries. Each through a whole run; the emitted body must equal the reference DER encoding written from RFC 5280 / 6960 (DER is canonical, so byte equality = an independent decoder reading back exactly the configured value). non-trivial = distinct case",
+		Rule:        "keyUsage: all 128 flag subsets x critical 3 (written order varied); subjectAlternativeName: all lists of length 0..4 over {mail,dns,ip} x 2 values (1555; thorough 0..5); basicConstraints: ca {omitted,false,true} x pathLen {omitted, 0..255, 256, 65535, 2^31} (780); certificatePolicies: 27 policy shapes (plain, cps, every userNotice combination of organization x numbers x text, two qualifiers), singles and all pairs; authorityInformationAccess: lists 0..3 (thorough 0..5) over 2 URIs; extendedKeyUsage: lists 0..3 (thorough 0..4) over 6 names + 2 OIDs; subjectAlternativeName lists up to 4 (thorough 5); authorityKeyIdentifier: hash (self-signed and under an issuer) and explicit ids of 1,20,32,127,128,768,769,1024 bytes x critical 3, every one-octet id (256) and a three-octet id for every pair of leading base64 characters of its !binary spelling (4096); subjectKeyIdentifier hash; ocspNoCheck; every string-, OID- and list-valued member at 25 lengths around the 127/128, 255/256 and 65535/65536 DER length-form boundaries. Each through a whole run; the emitted body must equal the reference DER encoding written from RFC 5280 / 6960 (DER is canonical, so byte equality = an independent decoder reading back exactly the configured value). non-trivial = distinct case",
 		Bound:       map[string]string{"lists": "quick <=3, thorough SAN<=4 AIA<=5 EKU<=4", "pathLen": "0..255 + 3 large"},
 		Assumptions: []string{"a userNotice with neither organization, numbers nor text has no defined encoding and is excluded", "SAN ip octets outside 0..255 are outside the domain (C20 covers the error clause)"},
 		Budget:      budgets(quickBudget, thoroughBudget),
